@@ -36,12 +36,12 @@ def run(ctx):
     singles = [[c] for c in CONCRETE + BASE]
     C = lambda f, **kw: fsops.Config(second_filter=f, probes=True, outside_ops=False, **kw)
     fsops.graph_search(ctx, [C(f) for f in singles], fsops.small_trees(2 if q else 3), CHECKS, burst_len=1, depth=1 if q else 2,
-                       respect_pacing=True, cap=60000 if q else 600000, label="single-filters-rec", classify=None)
+                       respect_pacing=True, cap=150000 if q else 1500000, label="single-filters-rec", classify=None)
     fsops.graph_search(ctx, [C(f, recursive=False) for f in singles] + [C(f, full=True) for f in singles],
                        fsops.small_trees(1 if q else 2), CHECKS, burst_len=1, depth=1, respect_pacing=True,
-                       cap=30000 if q else 300000, label="single-filters-flat-full", classify=None)
+                       cap=100000 if q else 1000000, label="single-filters-flat-full", classify=None)
     fsops.graph_search(ctx, [C(f) for f in singles], fsops.small_trees(1), CHECKS, burst_len=2, depth=1,
-                       respect_pacing=True, cap=40000 if q else 400000, label="single-filters-bursts", classify=None)
+                       respect_pacing=True, cap=100000 if q else 1000000, label="single-filters-bursts", classify=None)
     if not q:
         pairs = [list(p) for p in itertools.combinations(CONCRETE, 2)]
         fsops.graph_search(ctx, [C(f) for f in pairs], fsops.small_trees(2), CHECKS, burst_len=1, depth=1,
